@@ -324,7 +324,7 @@ def coq_case(spec, log, seed_calls):
     return "(%s,\n  %s,\n  %s,\n  %s)" % (coq_settings(spec), coq_table(spec), draws, ops)
 
 
-IMPORTS = "From Verif Require Import model.Base model.Sim.\nOpen Scope Q_scope.\n"
+IMPORTS = "From Coq Require Import Qabs.\nFrom Verif Require Import model.Base model.Sim.\nOpen Scope Q_scope.\n"
 
 PRELUDE = r"""
 Definition tol_eq (a b : Q) : bool :=
@@ -349,6 +349,12 @@ Definition res_match (d : delivered) (o : obs_res) : bool :=
   let '(t', l', e', ms', ts') := o in
   Nat.eqb t t' && Nat.eqb (res_level r) l' && tol_eq (res_elapsed r) e' &&
   list_eqb Qeqb (res_metrics r) ms' && tol_eq ts ts'.
+Fixpoint list_match {A B} (f : A -> B -> bool) (a : list A) (b : list B) : bool :=
+  match a, b with
+  | [], [] => true
+  | x :: a', y :: b' => f x y && list_match f a' b'
+  | _, _ => false
+  end.
 Definition sts_match (model impl : list (nat * status)) : bool :=
   forallb (fun p => opt_eqb status_eqb (lookup (fst p) impl) (Some (snd p))) model &&
   forallb (fun p => mem_nat (fst p) (map fst model)) impl.
@@ -357,7 +363,7 @@ Definition out_match (st : state) (out : output) (o : obs) : bool :=
   | OutTrial t, OTrial t' c => Nat.eqb t t' && tol_eq (clock st) c
   | OutNone, ONone c => tol_eq (clock st) c
   | OutFetch rs sts, OFetch rs' sts' c =>
-      list_eqb (fun a b => res_match a b) rs rs' && sts_match sts sts' && tol_eq (clock st) c
+      list_match res_match rs rs' && sts_match sts sts' && tol_eq (clock st) c
   | OutBusy b, OBusy b' c => same_set_nat b b' && tol_eq (clock st) c
   | _, _ => false
   end.
